@@ -9,8 +9,11 @@ from .fam_dist import blk
 
 def world_stab(rnd):
     fields = [fld("a", 8, False), fld("b", 8, False), fld("c", 4, rnd.random() < 0.5), fld("k", 4, False, rand=False, init=5),
+              # fields whose first-reference order in the constraints is not the alphabetical order of their names
+              fld("zeta", 6, False), fld("mid", 6, False), fld("alpha", 6, False),
               {"name": "l", "kind": "list", "w": 4, "signed": False, "rand": True, "init": [0, 0, 0], "cap": 4}]
     blocks = [blk("c1", [E(B("lt", F("a"), F("b")))]),
+              blk("c0", [E(B("lt", F("zeta"), F("mid"))), E(B("lt", F("mid"), F("alpha")))]),
               blk("c2", [{"k": "dist", "e": F("c"), "ws": [{"it": {"k": "v", "e": lit(1)}, "w": lit(2)},
                                                           {"it": {"k": "r", "lo": lit(2), "hi": lit(5)}, "w": lit(3)}]}]),
               blk("c3", [{"k": "order", "a": ["a"], "b": ["b"]}, {"k": "soft", "e": B("eq", F("b"), lit(200))}]),
@@ -61,16 +64,20 @@ def family_stab(tier, seed, n=None):
                 ops.append({"op": "restore", "o": rnd.choice([so, so, "o1", "o2"]), "name": nm})
             else:
                 ops.append({"op": "set", "p": o + ".k", "v": bits(rnd.randrange(16), 4)})
-        envs = ENVS if tier == "thorough" else rnd.sample(ENVS[1:], 2) + [ENVS[0]]
+        envs = ENVS if tier == "thorough" else [ENVS[0], ENVS[2], rnd.choice([ENVS[1], ENVS[3]])]     # plain, debug, one more
         out.append({"id": "ST/%s/%d" % ("core" if core else "s%d" % seed, t), "world": world, "ops": ops, "envs": envs})
     # default state: the sequence is fixed by Python's global seed (no global-random noise here)
     for t in range(2 if tier == "quick" else 10):
         rnd = random.Random(919 + t)
         world = world_stab(rnd)
         ops = [{"op": "construct", "o": "o1"}, {"op": "construct", "o": "o2"}, {"op": "seed_global", "s": 40 + t},
-               {"op": "default", "o": "o1"}, {"op": "default", "o": "o2"}]
-        for i in range(6):
-            ops.append({"op": "call", "call": mcall(rnd.choice(["o1", "o2"]))})
+               # get_randstate() as the very first state-related call on a fresh object: still an independent snapshot
+               {"op": "snap", "o": "o1", "name": "first"}, {"op": "default", "o": "o2"}]
+        for i in range(4):
+            ops.append({"op": "call", "call": mcall(rnd.choice(["o1", "o1", "o2"]))})
+        ops.append({"op": "restore", "o": "o1", "name": "first"})
+        for i in range(3):
+            ops.append({"op": "call", "call": mcall("o1")})
         envs = [{"hashseed": 0, "noise": []}, {"hashseed": 5, "noise": ["other", "gc", "hash"], "noise_seed": 2, "debug": True},
                 {"hashseed": 99, "noise": ["gc"], "srcinfo": True, "solve_fail_debug": True}]
         out.append({"id": "ST/global/%d" % t, "world": world, "ops": ops, "envs": envs})
